@@ -245,15 +245,19 @@ func c31RunPrim(w *vWriter, in c31Input) {
 	interval := time.Duration(in.IntervalMs) * time.Millisecond
 	timeout := time.Duration(in.TimeoutMs) * time.Millisecond
 	var obs c31PrimObs
-	quiet := false
+	quiet, canaryQuiet := false, false
 	for attempt := 0; attempt < 4 && !quiet; attempt++ {
 		obs = c31PrimOnce(in)
 		rel := time.Duration(in.ReleaseMs) * time.Millisecond
 		lateRelease := in.ReleaseMs >= 0 && obs.acquired && obs.releasedAt-rel > interval/5
-		quiet = obs.noise <= interval/5 && !lateRelease
+		canaryQuiet = obs.noise <= interval/5 && !lateRelease
+		// the call returns right after a poll, and polls are due at multiples of the interval: a
+		// return far from every multiple means this run's sleeps were stretched (whatever the outcome)
+		onGrid := obs.elapsed%interval <= interval/4
+		quiet = canaryQuiet && onGrid
 	}
 	key := fmt.Sprintf("prim:%d:%d:%d", in.TimeoutMs, in.IntervalMs, in.ReleaseMs)
-	if !quiet {
+	if !canaryQuiet { // (off-grid four times in a row with a quiet canary is reported as observed)
 		w.Emit(VCase{Input: in, Key: key, Inconcl: fmt.Sprintf("scheduling noise %s exceeds a fifth of the %s interval in 4 attempts", obs.noise, interval), Tags: []string{"prim-noisy"}})
 		return
 	}
@@ -452,10 +456,10 @@ func TestVerif_C31(t *testing.T) {
 		}()
 	}
 	// (a) grid: timeouts and releases at half-interval offsets (never on a poll instant)
-	intervals := []int{80, 120}
+	intervals := []int{150, 250}
 	reps := 1
 	if vTier() == "thorough" {
-		intervals = []int{60, 80, 100, 120, 160}
+		intervals = []int{120, 150, 200, 250, 400}
 		reps = 4
 	}
 	sem := make(chan struct{}, 8)
